@@ -48,6 +48,10 @@ def scan_file(repo, rel):
             f = Fn()
             f.file, f.name, f.is_async, f.line, f.body = rel, name, is_async, line(i), (toks[j][1], toks[bc][2])
             f.acq, f.awaits, f.spawns = [], [], 0
+            spans = []
+            for k in range(j, bc):
+                if T(k) == 'spawn' and T(k - 1) == ':' and T(k + 1) == '(':
+                    spans.append((k, L.match_close(text, toks, k + 1)))
             f.start = toks[i][1]
             for k in range(j, bc):
                 if T(k) == 'await' and T(k - 1) == '.':
@@ -59,7 +63,8 @@ def scan_file(repo, rel):
                             s -= 1
                         recv = ''.join(T(x) for x in range(s + 1, k - 5))
                         bound = T(k + 1) == ';'
-                        f.acq.append({'line': line(k), 'recv': recv, 'kind': T(k - 4), 'bound': bound, 'tok': k, 'pos': toks[k][1]})
+                        f.acq.append({'line': line(k), 'recv': recv, 'kind': T(k - 4), 'bound': bound, 'tok': k, 'pos': toks[k][1],
+                                      'in_spawn': any(a < k < b for a, b in spans)})
                     else:
                         # callee name
                         nm = '?'
